@@ -4,7 +4,7 @@ TB = ("Trusted: Lean kernel + propext/Classical.choice/Quot.sound; the hand-writ
 CLAIMS = {
  'C04': dict(engine='control', technique='Lean 4 proof (refinement of the routing function to the statement) + differential correspondence run',
    text="Theorems (all tables, hosts, paths, arrangements): the router's lookup returns exactly the statement's choice (host level, longest "
-        "segment-boundary prefix, 404 otherwise), the answer is unique and depends only on the set of bindings, ports are ignored. The model's "
+        "segment-boundary prefix, 404 otherwise), the answer is unique and depends only on the set of bindings, ports are ignored, a request target without a path (absolute-form, URL.Path empty) is routed exactly like / (C04_empty_path_is_root, C04_empty_path_not_404). The model's "
         "routing is tied to the real Router by command histories + route/request probes in every run.",
    note=TB + "Modelled stdlib: net.SplitHostPort. Prefixes are assumed normalised as NormalizePathPrefixes produces them (proved for that function)."),
  'C05': dict(engine='control+proxy', technique='Lean 4 proof (invariants by induction over command histories incl. restarts, and over arbitrary concurrent schedules) + differential correspondence run',
@@ -60,7 +60,7 @@ CLAIMS = {
         "never holds more than buffer-memory bytes, a spill exists iff more was accepted and memory is then exactly full; overflow iff a "
         "write would pass max-bytes (exactly max-bytes accepted, one more rejected); request middleware: over the limit => 413 and the next "
         "handler is never called, else called with exactly the client's bytes; response middleware: for every handler trace and every ending "
-        "(return, overflow, hijack, event stream, panic) every spill created is removed, at most one is created. Tied by an exhaustive small "
+        "(return, overflow, hijack, event stream, panic) every spill created is removed, at most one is created; through the complete stack a buffered response over the limit reaches the client as a complete 500, never a cut connection (C14_over_limit_is_500; response-buffered services with limits behind a real http.Server in the faults engine). Tied by an exhaustive small "
         "scope against the real Buffer plus middleware runs with a private TMPDIR.",
    note=TB + "File-system effects are modelled as events (create/remove). The exact-status clause of response buffering for arbitrary traces is shown by evaluation on examples and the correspondence run rather than a general theorem."),
 
@@ -133,7 +133,7 @@ CLAIMS = {
 
 'C15': dict(engine='faults', technique='Lean 4 proof (decision logic over the complete fault table; no-residue lemma on the concurrent model) + fault enumeration through the full in-memory stack diffed against the model',
    text="Theorems: the error classification is total with a fixed priority; every fault before the header block gives a complete error "
-        "response - 504 exactly at the target timeout for silence, 502 at once otherwise - rendered with the service's page for that "
+        "response - 504 exactly at the target timeout for silence, 502 at once otherwise (a connection reset by the target, ECONNRESET, included: it is not a client disconnect) - rendered with the service's page for that "
         "status if it has one else the built-in page (never the bare fallback); stalls either side of the timeout; every fault after the "
         "header block is never presented as complete (buffered: nothing delivered); a request that ended in any way counts as finished "
         "for later drains. Tied by enumerating the fault points against the real handler chain, ReverseProxy and Transport on an "
@@ -143,7 +143,7 @@ CLAIMS = {
    text="Theorems: the logging writer's byte count is the sum of the successful writes and its status the last header written (101 after a "
         "hijack); for every outcome class of a routed request the record's status is the status the client saw and its byte count the body "
         "bytes handed to the client's writer; client abort => 499/0 bytes; unrouted => 404 with no service and target. Tied by capturing the "
-        "JSON log of one request per outcome class x sizes x header lists and comparing record count (exactly 1) and every field.",
+        "JSON log of one request per outcome class x sizes x header lists and comparing record count (exactly 1) and every field; the logged request id is also compared with the id the target received.",
    note=TB + "Partial: net/http's own accounting towards the client is assumed; deferred emission on panic is exercised (mid-body faults) not proved."),
 }
 
